@@ -4,7 +4,7 @@
 ROOT=$(cd "$(dirname "$0")/../.." && pwd)
 cd "$ROOT/harness" || exit 0
 if [ -z "${VERIF_SKIP_MIRI:-}" ]; then
-  for b in c02 c03 c04 c05 c06; do
+  for b in c02 c03 c04 c05 c06 c09; do
     CARGO_TARGET_DIR="$ROOT/harness/target/miri" MIRIFLAGS="-Zmiri-disable-isolation" \
       cargo +nightly miri run --offline -q -p checks --bin $b -- --noop >/dev/null 2>&1
     echo "miri build of $b: done"
